@@ -2662,9 +2662,11 @@ fn main() {
 
     // replay: re-run exactly the shard named in the witness, with the recorded seed and tier
     let mut only: Option<String> = None;
+    let mut only_sig: Option<String> = None;
     if let Some(path) = ctx.replay.clone() {
         match load_replay(&path) {
             Some(j) => {
+                only_sig = j.get("signature").and_then(|s| s.as_str()).map(|s| s.to_string());
                 if let Some(s) = j.get("seed").and_then(|s| s.as_u64()) {
                     ctx.seed = s;
                 }
@@ -2715,6 +2717,10 @@ fn main() {
             *stats.entry(k).or_insert(0) += v;
         }
         rep.merge(o.rep);
+    }
+    if let Some(sig) = &only_sig {
+        // replay: report the recorded defect only (the shard is re-executed as a whole)
+        rep.violations.retain(|v| v.signature == *sig);
     }
     let mut ops = serde_json::Map::new();
     let mut classes = serde_json::Map::new();
